@@ -45,7 +45,7 @@ func addOutputNodesCase(c *Corr, src string, replay interface{}) {
 	fmt.Fprintf(&sb, " %d", len(els))
 	for _, e := range els {
 		a := distiller.VerifElementAtoms(e)
-		fmt.Fprintf(&sb, " %d %s %s %s %s %s 0 0", d.ID[e], hx(a.StyleDisplay), b01(a.VisHidden), b01(a.Byline), b01(a.Unlikely), b01(a.Maybe))
+		fmt.Fprintf(&sb, " %d %s %s %s %s %s 0 0 %s", d.ID[e], hx(a.StyleDisplay), b01(a.VisHidden), b01(a.Byline), b01(a.Unlikely), b01(a.Maybe), b01(distiller.VerifIsForeignRawText(e)))
 	}
 	fmt.Fprintf(&sb, " %d", len(txts))
 	for _, t := range txts {
